@@ -600,14 +600,19 @@ def filling_emplacers(F, R):
             else:
                 nbb, nt = nx[0]
                 pbb, pt = pushes[0]
-                sw = body.term(nt["target"]) if nt.get("target") is not None else None
                 none_edge = some_edge = None
-                if isinstance(sw, dict) and "switch" in sw:
-                    for v, tgt in sw["targets"]:
-                        if int(v) == 0:
-                            none_edge = (nt["target"], tgt)
-                        elif int(v) == 1:
-                            some_edge = (nt["target"], tgt)
+                for sbb, st in body.switches():
+                    cond = body.expr_of_operand(st["switch"])
+                    if cond[0] == "discr" and strip(cond[1])[0] == "call" and strip(cond[1])[5] == nbb:
+                        for v, tgt in st["targets"]:
+                            if int(v) == 0:
+                                none_edge = (sbb, tgt)
+                            elif int(v) == 1:
+                                some_edge = (sbb, tgt)
+                        if some_edge is None and none_edge is not None:
+                            some_edge = (sbb, st["otherwise"])
+                        if none_edge is None and some_edge is not None:
+                            none_edge = (sbb, st["otherwise"])
                 if none_edge is None or some_edge is None:
                     ok4 = False
                     why.append("the result of next() is not matched on None/Some directly")
